@@ -529,8 +529,21 @@ DynArray* dyn_array_push_struct(DynArray* arr, const void* struct_ptr, size_t st
     
     assert(arr->elem_size == struct_size && "DynArray: Struct size mismatch");
     
+    /* The source may be an element of this very array (push of (at arr i)):
+     * growing moves the storage, so remember the offset instead of the pointer. */
+    size_t self_offset = 0;
+    bool from_self = arr->data != NULL &&
+        (const uint8_t*)struct_ptr >= (const uint8_t*)arr->data &&
+        (const uint8_t*)struct_ptr < (const uint8_t*)arr->data + (size_t)arr->length * arr->elem_size;
+    if (from_self) {
+        self_offset = (size_t)((const uint8_t*)struct_ptr - (const uint8_t*)arr->data);
+    }
+
     if (arr->length >= arr->capacity) {
         dyn_array_grow(arr);
+    }
+    if (from_self) {
+        struct_ptr = (const uint8_t*)arr->data + self_offset;
     }
     
     /* Copy struct into array */
